@@ -42,7 +42,7 @@ func propC16(c *Check) {
 		"proposer-bound":   lit("(Keeper.VerifyNonProposal($2)#1 == nil)"),
 		"voter-registered": lit("(" + strings.TrimSuffix(V, "#0") + "#1 == nil)"),
 		"status-pending":   lit(EQ("VOTER_STATUS_PENDING", V+".Status")),
-		"bls-key-hash":     lit("bytes.Equal(" + V + ".VoteKey, crypto.SHA256Sum([$2.VoterBlsKey]))") + "|" + lit("bytes.Equal(crypto.SHA256Sum([$2.VoterBlsKey]), "+V+".VoteKey)"),
+		"bls-key-hash":     lit("bytes.Equal("+V+".VoteKey, crypto.SHA256Sum([$2.VoterBlsKey]))") + "|" + lit("bytes.Equal(crypto.SHA256Sum([$2.VoterBlsKey]), "+V+".VoteKey)"),
 		"tx-key-proof":     lit("crypto.VerifySignature($2.VoterTxKey, " + doc + ", $2.VoterTxKeyProof)"),
 		"bls-key-proof":    lit("crypto.Verify($2.VoterBlsKey, " + doc + ", $2.VoterBlsKeyProof)"),
 	} {
@@ -178,7 +178,7 @@ func propC16(c *Check) {
 	}
 	sort.Strings(relation)
 	c.Extra["voter_status_relation"] = relation
-	c.Floor("R2", "voter status writes", nW, 5)
+	c.Floor("R2", "voter status writes", nW, 3)
 
 	// R3
 	pr := p.MustFn("x/relayer/keeper.Keeper.ProcessRelayerRequest")
@@ -300,7 +300,7 @@ func propC16(c *Check) {
 				c.Violated("R4", fmt.Sprintf("proposer-source#%d @ %s", nP, FuncKey(eb)), p.InstrPos(s.in), "the proposer is set to "+s.val+", not to a current voter")
 			}
 		}
-		c.Floor("R4", "proposer assignments", nP, 3)
+		c.Floor("R4", "proposer assignments", nP, 2)
 		// swap: every proposer=voters[i] is paired with voters[i]=old proposer in the same block
 		for _, b := range eb.Blocks {
 			var pst, vst *ssa.Store
